@@ -3,7 +3,6 @@ package c10
 import (
 	"encoding/base64"
 	"encoding/hex"
-	"fmt"
 	"sort"
 	"sync"
 	"testing"
@@ -91,7 +90,7 @@ func (g *caseGen) audio(from, to int64, allowDense bool) []timed {
 	}
 	modes := []string{"none", "none", "burst", "burst", "sparse", "sparse", "dense"}
 	mode := rapid.SampledFrom(modes).Draw(g.rt, "audioMode")
-	if mode == "dense" && (!allowDense || (to-from)/g.cad > 60) {
+	if mode == "dense" && (!allowDense || (to-from)/g.cad > 120) {
 		mode = "burst"
 	}
 	g.stats = append(g.stats, "audio:"+mode)
@@ -261,15 +260,20 @@ func (g *caseGen) reads() {
 	case 2: // two callers, one after the other
 		g.c.Ops = append(g.c.Ops, op{K: "m3u8", Token: g.token()}, op{K: "m3u8", Token: g.token()})
 	case 3, 4, 5:
-		g.c.Ops = append(g.c.Ops, op{K: "fetch", Back: rapid.SampledFrom([]int{0, 0, 0, 1, 1, 2, 2, 3, 4, -1}).Draw(g.rt, "back")})
+		g.c.Ops = append(g.c.Ops, op{K: "fetch", Back: rapid.SampledFrom([]int{0, 0, 1, 1, 2, 2, 2, 3, 4, -1}).Draw(g.rt, "back")})
 	default:
 		g.c.Ops = append(g.c.Ops, op{K: "read", Rd: rapid.IntRange(0, 5).Draw(g.rt, "reader"),
-			N: rapid.SampledFrom([]int{1, 7, 188, 188, 400, 1000, -1, -1}).Draw(g.rt, "n")})
+			N: rapid.SampledFrom([]int{1, 7, 188, 188, 400, 1000, 1000, -1}).Draw(g.rt, "n")})
 	}
 }
 
-func genCase(rt *rapid.T, disk bool) (*caseSpec, []string) {
+func genCase(rt *rapid.T, disk bool, salt int) (*caseSpec, []string) {
 	c := &caseSpec{Disk: disk, FlushAt: -1}
+	for k := 0; k < salt; k++ {
+		// the driver hands every rapid.Check of the run the same seed: sibling
+		// tests shift the random stream so that they do not repeat each other
+		rapid.Uint64().Draw(rt, "salt")
+	}
 	c.Fragment = rapid.SampledFrom([]int{1, 1, 1, 1, 1, 2, 2, 2, 3, 5, 0}).Draw(rt, "fragment")
 	ps := repoParamSets[rapid.IntRange(0, len(repoParamSets)-1).Draw(rt, "paramSet")]
 	c.SPS, c.PPS = b64hex(ps[0]), b64hex(ps[1])
@@ -322,7 +326,7 @@ func genCase(rt *rapid.T, disk bool) (*caseSpec, []string) {
 	return c, g.stats
 }
 
-func stateMachine(t *testing.T, disk bool, quick, thorough int) {
+func stateMachine(t *testing.T, disk bool, salt, quick, thorough int) {
 	evid.Rule(ruleText)
 	evid.Assume("fragment 0 is reachable only through the constructor (config.HlsFragment yields >= 5, the verif hook > 0); it is generated without audio, because with it every audio frame cuts the segment by construction")
 	evid.Assume("time stamps stay below 2^33 (no wrap inside a case) and arrive in decode order")
@@ -332,37 +336,34 @@ func stateMachine(t *testing.T, disk bool, quick, thorough int) {
 		name = "state-machine-disk"
 	}
 	var mu sync.Mutex
-	seen := map[string]bool{}
 	evid.Checks(quick, thorough)
 	rapid.Check(t, func(rt *rapid.T) {
-		c, stats := genCase(rt, disk)
+		c, stats := genCase(rt, disk, salt)
 		check(rt, c, work, name)
 		mu.Lock()
 		for _, s := range stats {
 			evid.Class(s)
-			seen[s] = true
 		}
 		mu.Unlock()
 	})
-	_ = fmt.Sprint
 }
 
 func TestStateMachineMemory(t *testing.T) {
 	t.Parallel()
-	stateMachine(t, false, 1200, 12000)
+	stateMachine(t, false, 0, 2000, 20000)
 }
 
 func TestStateMachineMemoryB(t *testing.T) {
 	t.Parallel()
-	stateMachine(t, false, 1200, 12000)
+	stateMachine(t, false, 1, 2000, 20000)
 }
 
 func TestStateMachineDisk(t *testing.T) {
 	t.Parallel()
-	stateMachine(t, true, 900, 9000)
+	stateMachine(t, true, 2, 1500, 15000)
 }
 
 func TestStateMachineDiskB(t *testing.T) {
 	t.Parallel()
-	stateMachine(t, true, 900, 9000)
+	stateMachine(t, true, 3, 1500, 15000)
 }
